@@ -81,7 +81,8 @@ def interpret_join(ctx, cls, ps, join_type):
     """prepare_select interpreted on `SELECT * FROM a <join_type> b ON c` with a generative stand-in for the SQLAlchemy select: which join method is
     called with which flags, or which exception ends the rendering"""
     from ..interp import Interp, Obj, Raised, Env
-    methods = {'SqlalchemyRender': {m.name: m for m in cls.body if isinstance(m, ast.FunctionDef)}}
+    from ..interp import class_members
+    methods = {'SqlalchemyRender': class_members(cls)}
     query = Obj('SaSelect', _fluent=True, _log=[])
     a, b = Obj('Identifier', parts=['a'], alias=None), Obj('Identifier', parts=['b'], alias=None)
     cond = Obj('BinaryOperation', op='=', args=[Obj('Identifier', parts=['a', 'x'], alias=None), Obj('Identifier', parts=['b', 'x'], alias=None)], alias=None)
@@ -114,7 +115,8 @@ def clause_table(ctx, cls, ps):
     each clause of the tree must arrive at the select with its own value - also the falsy ones (LIMIT 0, empty string constants)."""
     import itertools
     from ..interp import Interp, Obj, Raised, Env
-    methods = {'SqlalchemyRender': {m.name: m for m in cls.body if isinstance(m, ast.FunctionDef)}}
+    from ..interp import class_members
+    methods = {'SqlalchemyRender': class_members(cls)}
     nrows = 0
 
     def C(v):
@@ -339,12 +341,7 @@ def run(ctx):
     uses_shared = any(isinstance(x, ast.Call) and norm(x.func) == 'self.to_order_by' for b in wf_branch[0].body for x in ast.walk(b))
     ctx.ob('C06.order', 'WindowFunction:uses-order-translation', uses_shared,
            'the WindowFunction branch does not translate its ORDER BY terms with the order-by translation', file=FILE, line=wf_branch[0].lineno)
-    # operator table ----------------------------------------------------------------------------------------------------
-    tables = {}
-    for n in ast.walk(te):
-        if isinstance(n, ast.Assign) and isinstance(n.value, ast.Dict) and isinstance(n.targets[0], ast.Name):
-            tables[n.targets[0].id] = {const_str(k): (const_str(v) or norm(v)) for k, v in zip(n.value.keys, n.value.values)}
-    ctx.need('methods' in tables and 'functions' in tables, 'to_expression: methods / functions tables not found')
+    # operator table: to_expression interpreted on `a <op> b` for every operator spelling the grammars produce, with recording element stand-ins -------------
     spellings = set()
     for d in DIALECTS:
         g = load_dialect(ctx.src, d)
@@ -358,33 +355,53 @@ def run(ctx):
                 for combo in product(*words):
                     spellings.add(' '.join(' '.join(combo).lower().split()))
     ctx.setcount('operator_spellings', len(spellings))
-    for op in sorted(spellings):
-        if op in OP_REF:
-            want = OP_REF[op]
-            got = tables['methods'].get(op)
-            ok = got == want or (isinstance(want, tuple) and got in want)
-            ctx.ob('C06.operator-table', op, ok,
-                   f'operator `{op}` is translated with `{got}` instead of `{want}`: the rendered expression means something else',
-                   file=FILE, line=te.lineno, witness=f'select a {op} b')
-        elif op in BOOL_REF:
-            ctx.ob('C06.operator-table', op, tables['functions'].get(op) == BOOL_REF[op],
-                   f'operator `{op}` is translated with {tables["functions"].get(op)} instead of {BOOL_REF[op]}', file=FILE, line=te.lineno)
-        else:
-            wrong = tables['methods'].get(op) or tables['functions'].get(op)
-            ctx.ob('C06.operator-table', op, wrong is None,
-                   f'operator `{op}` has no reference translation but is mapped to {wrong}', file=FILE, line=te.lineno)
-            ctx.note(f'operator `{op}` falls to the generic arg0.op(op)(arg1) translation (listed)')
-    for k, v in tables['methods'].items():
-        if k in OP_REF:
-            want = OP_REF[k]
-            ctx.ob('C06.operator-table', f'table:{k}', v == want or (isinstance(want, tuple) and v in want),
-                   f'methods[{k!r}] = {v!r}, reference {want!r}', file=FILE, line=te.lineno)
+    from ..interp import Interp, Obj, Raised, Env
+    from ..saelem import Elem, sa_stubs, elem_getattr
+
+    def translate(op):
+        a, b = Obj('Identifier', parts=['a'], alias=None, parentheses=False), Obj('Identifier', parts=['b'], alias=None, parentheses=False)
+        right = Obj('Tuple', items=[b], alias=None, parentheses=False) if op.lower() in ('in', 'not in') else b
+        node = Obj('BinaryOperation', op=op, args=[a, right], alias=None, parentheses=False)
+        stubs = sa_stubs()
+        stubs.update({'self.get_alias': lambda it, x: x, 'self.to_column': lambda it, parts: Elem('column', tuple(parts))})
+        it = Interp.for_file(ctx.src, FILE, {'BinaryOperation': {'Operation'}, 'Identifier': set(), 'Tuple': set()}, stubs)
+        it.stubs['getattr'] = elem_getattr
+        try:
+            res = it.call_function(te, [Obj('SqlalchemyRender', dialect=Obj('Dialect', name='postgresql')), node], {}, Env())
+        except Raised as r:
+            return f'<{r.exc_name}>'
+        if not (isinstance(res, Elem) and res.kind.startswith('op:') and len(res.args) == 2 and isinstance(res.args[0], Elem) and res.args[0].kind == 'column'
+                and res.args[0].value == ('a',)):
+            return f'<not an operation over a and b: {res!r}>'
+        return res.kind[3:]
+    for op0 in sorted(spellings):
+        for op in sorted({op0, op0.upper()}):
+            got = translate(op)
+            if op0 in OP_REF:
+                want = OP_REF[op0]
+                ok = got == want or (isinstance(want, tuple) and got in want)
+                ctx.ob('C06.operator-table', op, ok,
+                       f'operator `{op}` is translated with `{got}` instead of `{want}`: the rendered expression means something else',
+                       file=FILE, line=te.lineno, witness=f'select a {op} b')
+            elif op0 in BOOL_REF:
+                ctx.ob('C06.operator-table', op, got == BOOL_REF[op0],
+                       f'operator `{op}` is translated with {got} instead of {BOOL_REF[op0]}', file=FILE, line=te.lineno)
+            else:
+                ctx.ob('C06.operator-table', op, got.lower() == f'generic:{op0}' or got == '<NotImplementedError>',
+                       f'operator `{op}` has no reference translation but is translated with {got} (expected: the generic arg0.op(<operator>)(arg1), or a refusal)',
+                       file=FILE, line=te.lineno)
+                if op == op0:
+                    ctx.note(f'operator `{op}` falls to the generic arg0.op(op)(arg1) translation (listed)')
     # clause coverage -----------------------------------------------------------------------------------------------------
     model = model_for(ctx.src)
     fns = {m.name: m for m in cls.body if isinstance(m, ast.FunctionDef)}
 
+    module_fns = {n.name: n for n in ctx.src.tree(FILE).body if isinstance(n, ast.FunctionDef)}
+    seen_calls = set()
+
     def reads_in(region, names):
-        """fields read from one of the receiver names inside the region; follows `x = recv` aliases and self.f(recv) calls"""
+        """fields read from one of the receiver names inside the region; follows `x = recv` aliases and calls of methods / static methods / module-level helpers
+        of the renderer that receive the receiver"""
         names = set(names)
         out = set()
         for st in region:
@@ -399,14 +416,20 @@ def run(ctx):
                 if isinstance(n, ast.Call) and dotted(n.func) in ('getattr', 'hasattr') and len(n.args) >= 2 and const_str(n.args[1]) \
                         and isinstance(n.args[0], ast.Name) and n.args[0].id in names:
                     out.add(n.args[1].value)
-                if isinstance(n, ast.Call) and isinstance(n.func, ast.Attribute) and norm(n.func.value) == 'self' and n.func.attr in fns:
+                callee = None
+                if isinstance(n, ast.Call) and isinstance(n.func, ast.Attribute) and norm(n.func.value) in ('self', cls.name) and n.func.attr in fns:
                     callee = fns[n.func.attr]
+                    shift = 0 if any(norm(d_) == 'staticmethod' for d_ in callee.decorator_list) else 1
+                elif isinstance(n, ast.Call) and isinstance(n.func, ast.Name) and n.func.id in module_fns:
+                    callee = module_fns[n.func.id]
+                    shift = 0
+                if callee is not None:
                     for i, a in enumerate(n.args):
-                        if isinstance(a, ast.Name) and a.id in names and i + 1 < len(callee.args.args) and callee is not region_owner.get(id(region)):
+                        if isinstance(a, ast.Name) and a.id in names and i + shift < len(callee.args.args) and callee is not region_owner.get(id(region)):
                             key = (callee.name, i)
                             if key not in seen_calls:
                                 seen_calls.add(key)
-                                out |= reads_in(callee.body, [callee.args.args[i + 1].arg])
+                                out |= reads_in(callee.body, [callee.args.args[i + shift].arg])
         return out
     region_owner = {}
     render_reads = {}
@@ -516,7 +539,8 @@ def run(ctx):
         t = norm(node.test)
         for cn in ALIASABLE:
             if f'ast.{cn})' in t or f'ast.{cn},' in t:
-                reads = any(isinstance(x, ast.Attribute) and x.attr == 'alias' and norm(x.value) == 't' for b in node.body for x in ast.walk(b))
+                seen_calls.clear()
+                reads = 'alias' in reads_in(node.body, ['t'])
                 seen[cn] = (reads, node.lineno)
         if len(node.orelse) == 1 and isinstance(node.orelse[0], ast.If):
             node = node.orelse[0]
